@@ -88,7 +88,7 @@ struct TreeC : Cont {
     const char *kind() { return "qtreetbl"; }
     bool create(bool ts) { t = qtreetbl(ts ? QTREETBL_THREADSAFE : 0); return t != nullptr; }
     void *mutex() { return t ? t->qmutex : nullptr; }
-    std::vector<const char *> ops() { return {"put", "putstr", "putstrf", "putobj", "remove", "removeobj", "clear", "get", "getstr", "getobj", "getnext-walk", "find_min", "find_max", "find_nearest", "size", "debug", "lock+unlock", "put(NULL name)", "get(NULL name)", "put(the key's own stored value)"}; }
+    std::vector<const char *> ops() { return {"put", "putstr", "putstrf", "putobj", "remove", "removeobj", "clear", "get", "getstr", "getobj", "getnext-walk", "find_min", "find_max", "find_nearest", "size", "debug", "lock+unlock", "put(NULL name)", "get(NULL name)", "put(the key's own stored value)", "150 complete getnext walks"}; }
     int nmutators() { return 7; }
     Res run(int op, const Args &a) {
         Res r; std::string kz = a.key; const char *k = kz.c_str(); size_t kn = kz.size() + 1;
@@ -114,6 +114,9 @@ struct TreeC : Cont {
             case 16: qtreetbl_lock(t); qtreetbl_unlock(t); break;
             case 17: r.failed = !qtreetbl_putobj(t, nullptr, 0, a.val.data(), a.val.size()); break;
             case 19: { size_t sz = 0; void *p = qtreetbl_getobj(t, k, kn, &sz, false); r.failed = !p || !qtreetbl_putobj(t, k, kn, p, sz); break; }   // data pointer = the table's own copy
+            case 20: { // long-run state: the table's walk counter wraps after 128 complete walks
+                       size_t total = 0; for (int w = 0; w < 150; w++) { qtreetbl_obj_t o; memset(&o, 0, sizeof o); size_t steps = 0; while (qtreetbl_getnext(t, &o, false)) { if (++steps > 10000) break; } total += steps; }
+                       r.obs = std::to_string(total); break; }
             default: r.failed = qtreetbl_getobj(t, nullptr, 0, nullptr, a.newmem) == nullptr;
         }
         return r;
